@@ -126,5 +126,58 @@ theorem fitch_lower (t : B) : ∀ (a : A), Valid t a → changes a ≥ (fitch t)
           have : pen (inter (fitch l).1 (fitch r).1) s ≤ 1 := by unfold pen; split <;> omega
           simp only [Bool.false_eq_true, if_false] ; omega
 
-#print axioms fitch_lower
+
+theorem exists_mem_of_ne_nil {l : List St} (h : l ≠ []) : ∃ x, x ∈ l := by
+  cases l with
+  | nil => exact absurd rfl h
+  | cons x xs => exact ⟨x, by simp⟩
+
+theorem fitch_upper (t : B) : NonEmptyLeaves t → ∀ s ∈ (fitch t).1, ∃ a : A, Valid t a ∧ a.root = s ∧ changes a = (fitch t).2 := by
+  induction t with
+  | leaf ss =>
+    intro _ s hs
+    exact ⟨.leaf s, by simpa [Valid, fitch] using hs, rfl, by simp [changes, fitch]⟩
+  | node l r ihl ihr =>
+    intro hne s hs
+    simp only [NonEmptyLeaves] at hne
+    simp only [fitch] at hs ⊢
+    by_cases hi : (inter (fitch l).1 (fitch r).1).isEmpty = true
+    · simp only [hi, if_true] at hs ⊢
+      rcases mem_union.mp hs with hA | hB
+      · -- s in the left set: left subtree rooted at s, right subtree rooted at any optimal state, one change
+        obtain ⟨al, hvl, hrl, hcl⟩ := ihl hne.1 s hA
+        obtain ⟨y, hy⟩ := exists_mem_of_ne_nil (fitch_nonempty r hne.2)
+        obtain ⟨ar, hvr, hrr, hcr⟩ := ihr hne.2 y hy
+        have hys : y ≠ s := by
+          intro e; subst e
+          have : y ∈ inter (fitch l).1 (fitch r).1 := mem_inter.mpr ⟨hA, hy⟩
+          rw [List.isEmpty_iff] at hi; rw [hi] at this; cases this
+        refine ⟨.node s al ar, ⟨hvl, hvr⟩, rfl, ?_⟩
+        simp [changes, hcl, hcr, hrl, hrr, d, hys]
+      · obtain ⟨ar, hvr, hrr, hcr⟩ := ihr hne.2 s hB
+        obtain ⟨x, hx⟩ := exists_mem_of_ne_nil (fitch_nonempty l hne.1)
+        obtain ⟨al, hvl, hrl, hcl⟩ := ihl hne.1 x hx
+        have hxs : x ≠ s := by
+          intro e; subst e
+          have : x ∈ inter (fitch l).1 (fitch r).1 := mem_inter.mpr ⟨hx, hB⟩
+          rw [List.isEmpty_iff] at hi; rw [hi] at this; cases this
+        refine ⟨.node s al ar, ⟨hvl, hvr⟩, rfl, ?_⟩
+        simp [changes, hcl, hcr, hrl, hrr, d, hxs]
+    · simp only [hi, Bool.false_eq_true, if_false] at hs ⊢
+      obtain ⟨hA, hB⟩ := mem_inter.mp hs
+      obtain ⟨al, hvl, hrl, hcl⟩ := ihl hne.1 s hA
+      obtain ⟨ar, hvr, hrr, hcr⟩ := ihr hne.2 s hB
+      refine ⟨.node s al ar, ⟨hvl, hvr⟩, rfl, ?_⟩
+      simp [changes, hcl, hcr, hrl, hrr, d]
+
+/-- Fitch's score is the minimum number of changes over all assignments of states to nodes -/
+theorem fitch_minimal (t : B) (h : NonEmptyLeaves t) :
+    (∀ a, Valid t a → (fitch t).2 ≤ changes a) ∧ (∃ a, Valid t a ∧ changes a = (fitch t).2) := by
+  constructor
+  · intro a ha; have := fitch_lower t a ha; omega
+  · obtain ⟨s, hs⟩ := exists_mem_of_ne_nil (fitch_nonempty t h)
+    obtain ⟨a, hv, _, hc⟩ := fitch_upper t h s hs
+    exact ⟨a, hv, hc⟩
+
+#print axioms fitch_minimal
 end Fitch
